@@ -13,6 +13,11 @@ fn fnv(data: &[u8]) -> u64 {
 }
 
 impl Walrus {
+    /// Clears the process-global block/file trackers (see `verif_reset_trackers`).
+    pub fn __verif_reset_globals() {
+        super::allocator::verif_reset_trackers();
+    }
+
     /// JSON text. `topics` lists the topics whose cursor-index entry, count and marker
     /// are rendered in addition to every topic the reader or writer maps know.
     pub fn __verif_digest(&self, topics: &[&str]) -> String {
